@@ -501,6 +501,10 @@ func (e *evaluator) evaluate(node parser.Node, current any, variables *variableS
 		}
 
 		if f, ok := toFloat(child); ok {
+			if f == 0 {
+				return f, nil
+			}
+
 			return -f, nil
 		}
 
